@@ -12,6 +12,7 @@ CONSTANTS
   XC <- MC_XC
   P0 <- MC_P0
   Ext <- MC_Ext
+  IndexCap = 100
   Variant = "ok"
 INVARIANT Invs
 POSTCONDITION TraceAccepted
@@ -23,11 +24,12 @@ def validate(ctx, path, label):
     return ctx.validate("Trace_ShardManager", TRACE_CFG, path, label=label, header=1)
 
 
-def run(ctx, controls=("reset_late", "hoisted_index", "first_verdict")):
+def run(ctx, controls=("reset_late", "hoisted_index", "first_verdict", "quadratic_count")):
     thorough = ctx.tier == "thorough"
     vlib.build_harness()
     w = vlib.workdir(ctx.pid.lower() + "_sm")
     ctx.model("MC_ShardManager", "MC_ShardManager.cfg", must_cover=("AddCas", "FlushWrite", "FlushRegister", "RegisterExt"))
+    ctx.model("MC_ShardManager", "MC_ShardManager_cap.cfg", coverage=False)      # a cap of 3 entries that is reached
     for v in controls:
         ctx.model("MC_ShardManager", "MC_ShardManager_%s.cfg" % v, expect_violation="Invs", coverage=False)
     # behaviours of the model (simulation) replayed under gate control: every step is one action
